@@ -16,38 +16,41 @@ Section OneKey.
   (* dependency of an operation as a function of the set of applied operations:
      a remove of k needs some put of k *)
   Definition dk (l : list op) (o : op) : Prop :=
-    op_bounded o /\ match o with ORemove _ k' => k' = k -> exists i v, In (OPut i k v) l | _ => True end.
+    op_bounded o /\ match o with ORemove _ k' => k' = k -> exists i v, In (OPut i k v) l | OSnap _ => False | _ => True end.
 
   Lemma dk_mono l l' o : incl l l' -> dk l o -> dk l' o.
   Proof.
-    intros Hi [Hb H]. split; [exact Hb|]. destruct o; try exact I.
+    intros Hi [Hb H]. split; [exact Hb|]. destruct o; try exact I; try exact H.
     intros E. destruct (H E) as [i [v Hin]]. exists i, v. apply Hi. exact Hin.
   Qed.
 
-  Lemma run_present l : forall s,
+  Lemma run_present l : no_snap l -> forall s,
     fold_left ak l s <> None <-> (s <> None \/ exists i v, In (OPut i k v) l).
   Proof.
-    induction l as [|o l IH]; intros s; cbn [fold_left].
+    induction l as [|o l IH]; intros Hn s; cbn [fold_left].
     - split; [tauto|intros [H|[i [v []]]]; exact H].
-    - rewrite IH. split.
+    - inversion Hn as [|? ? Ho Hl]; subst. rewrite (IH Hl). split.
       + intros [H|[i [v H]]].
-        * destruct o; cbn in H; try (left; exact H).
+        * destruct o; cbn in H; try (left; exact H); try discriminate Ho.
           -- destruct (str_eqb k k0) eqn:E; [|left; exact H]. apply str_eqb_eq in E. subst.
              right. exists id, v. left; reflexivity.
           -- destruct (str_eqb k k0) eqn:E; [|left; exact H]. left. destruct s; [discriminate|cbn in H; congruence].
         * right. exists i, v. right; exact H.
       + intros [H|[i [v [H|H]]]].
-        * left. apply reg_apply_keeps. exact H.
+        * left. apply reg_apply_keeps; [exact Ho|exact H].
         * left. subst o. cbn. rewrite str_eqb_refl. destruct s; cbn; discriminate.
         * right. exists i, v. exact H.
   Qed.
 
   Lemma rk_iff l o : exec_ok _ _ ak rk None l -> (rk (fold_left ak l None) o <-> dk l o).
   Proof.
-    intros _. unfold reg_ready, dk. destruct o; try tauto.
+    intros Hex. assert (Hn : no_snap l).
+    { clear o. revert Hex. generalize (@None mentry). induction l as [|a l IH]; intros r Hex; [constructor|].
+      destruct Hex as [Ha Hex]. constructor; [exact (reg_ready_not_snap _ _ _ Ha)|exact (IH _ Hex)]. }
+    unfold reg_ready, dk. destruct o; try tauto.
     split; intros [Hb H]; (split; [exact Hb|]); intros E; specialize (H E).
-    - apply run_present in H. destruct H as [H|H]; [congruence|exact H].
-    - apply run_present. right; exact H.
+    - apply (run_present _ Hn) in H. destruct H as [H|H]; [congruence|exact H].
+    - apply (run_present _ Hn). right; exact H.
   Qed.
 
   Lemma good_step r a : reg_bounded r -> rk r a -> reg_bounded (ak r a).
@@ -127,7 +130,10 @@ Proof.
 Qed.
 
 Lemma m_exec_remote_wf s o : m_wf s -> m_wf (m_exec_remote s o).
-Proof. destruct o; cbn; auto using m_put_wf, m_remove_remote_wf. Qed.
+Proof.
+  destruct o; cbn; auto using m_put_wf, m_remove_remote_wf.
+  intros _. split; [constructor|reflexivity].
+Qed.
 
 Lemma m_fold_wf l : forall s, m_wf s -> m_wf (fold_left m_exec_remote l s).
 Proof. induction l as [|o l IH]; intros s H; cbn; [exact H|apply IH, m_exec_remote_wf, H]. Qed.
@@ -161,7 +167,7 @@ Qed.
 
 (* ---------- the whole map as one replicated system ---------- *)
 Definition m_ready (s : mstate) (o : op) : Prop :=
-  op_bounded o /\ match o with ORemove _ k => mget s k <> None | _ => True end.
+  op_bounded o /\ match o with ORemove _ k => mget s k <> None | OSnap _ => False | _ => True end.
 
 Section WholeMap.
   Variable author : op -> nat.
@@ -171,7 +177,7 @@ Section WholeMap.
   Lemma ready_full_k k l o :
     m_ready (fold_left m_exec_remote l m_init) o -> reg_ready k (fold_left (reg_apply k) l None) o.
   Proof.
-    intros [Hb H]. split; [exact Hb|]. destruct o; try exact I.
+    intros [Hb H]. split; [exact Hb|]. destruct o; try exact I; try exact H.
     intros ->. change (@None mentry) with (mget m_init k). rewrite <- (mget_fold l m_init k). exact H.
   Qed.
 
